@@ -1,4 +1,8 @@
-"""Per-property description emitted into the evidence (functions encoded, bounds, assumptions)."""
+"""Per-property description emitted into the evidence (functions encoded, bounds, assumptions) and the
+end-to-end rendering of packet-layer counterexamples through the real p2sh binary."""
+import os, re, struct, subprocess, json
+
+VERIF = os.path.dirname(os.path.dirname(os.path.abspath(__file__)))
 
 COMMON_ASSUMPTIONS = [
     "trusted: rustc front end, Kani 0.68 MIR->goto translation, CBMC 6.11, CaDiCaL; Kani's models of alloc/Rc/RefCell/memcpy; allocation never fails",
@@ -7,9 +11,137 @@ COMMON_ASSUMPTIONS = [
     "Kani models the dev profile (-C overflow-checks=on); counterexamples are replayed natively in dev and release",
 ]
 
-INFO = {}
+PROTO = "src/builtins/protocols/"
+INFO = {
+    "C06": {
+        "functions": ["Object::is_falsey (src/object/mod.rs)"],
+        "bounds": "all values of Bool/Integer/Float/Char/Byte/Null; strings and arrays of 0..2 elements; maps of 0 (and best-effort 1) entries; representatives of non-table kinds",
+        "outside": "that Bang/JumpIfFalse/JumpIfFalseNoPop and compile_logical_and/or use this predicate and yield operand values (compiler, VM::run: not symbolically executable)",
+        "assumptions": ["stub: std::hash::RandomState::new -> fixed keys (map harnesses only; hash values never asserted on)"],
+    },
+    "C08": {
+        "functions": ["<&Object as Add|Sub|Mul|Div|Rem|Neg|BitAnd|BitOr|BitXor|Shl|Shr> (src/object/mod.rs)", "Object::is_zero"],
+        "bounds": "operand kinds enumerated (Integer/Float/Byte pairs; Integer pairs for bitwise; Integer|Float for unary minus), operand values unbounded",
+        "outside": "recursion depth, frames, locals, return in filters, builtins, string repetition count: VM::run / builtin pointer table (not symbolically executable)",
+        "assumptions": ["precondition read from VM::binary_op / bitwise_op (not solver-decided): operator closures are entered only with numeric operands, "
+                        "and '/' and '%' only when Object::is_zero(right) is false (is_zero itself IS decided: harness family is_zero_*)"],
+    },
+    "C09": {
+        "functions": ["<&Object as Add|Sub|Mul|Div|Rem|Neg|BitAnd|BitOr|BitXor|Shl|Shr>", "Object::eq", "Object::partial_cmp (through PartialOrd::gt/ge)", "Object::is_zero"],
+        "bounds": "operand kinds enumerated, operand values unbounded (64-bit, all f64 bit patterns); 64-bit integer / and % value model decided by engine M only (CBMC: best effort)",
+        "outside": "operand-kind dispatch and error cases of VM::binary_op (strings, chars, arrays, 'every other combination is a runtime error'), string concatenation/repetition",
+        "assumptions": ["same dispatch precondition as C08"],
+    },
+    "C10": {
+        "functions": ["Object::eq", "Object::hash (through a recording Hasher)", "Object::is_a_valid_key"],
+        "bounds": "key kinds Integer/Float/Byte/Char/Bool/Null/Builtin(2 names)/Str of 0..2 ASCII bytes, all pairs",
+        "outside": "array keys (element-wise fold; not reachable), insert/lookup sequences (std HashMap trusted given Eq/Hash agreement), hmap.rs / exec_hash_index / build_map glue (VM)",
+        "assumptions": ["std::collections::HashMap behaves per its contract when Eq and Hash agree"],
+    },
+    "C15": {
+        "functions": [PROTO + "{ethernet,vlan,ipv4,ipv6,tcp,udp}.rs: X::from_bytes, From<&XHeader> for Vec<u8>, From<&X> for Vec<u8>",
+                      "src/builtins/pcap.rs: PcapPacketHeader::from_bytes, From<&PcapPacketHeader>, From<&PcapPacket> (hook H1)"],
+        "bounds": "per stamp: buffer length <= 78 bytes, header offset in {0,14,18}, IPv4 version/IHL byte enumerated; inner cache empty",
+        "outside": "composition through cached inner layers incl. cached error objects (argued in DESIGN 4/C15, not solver-decided), pcap_write/write/filter output glue",
+        "assumptions": [],
+    },
+    "C16": {
+        "functions": [PROTO + "*.rs: X::from_bytes and every numeric get_*; payload offset field", "src/builtins/pcap.rs: PcapGlobalHeader::from_bytes, PcapPacketHeader::from_bytes, PcapPacket getters (H1), Pcap getters (H4)"],
+        "bounds": "per stamp: buffer length <= 78 bytes, header offset in {0,14,18}, IPv4 version/IHL byte enumerated (one stamp symbolic)",
+        "outside": "addresses as text, payload array construction, $n / named-layer descent (VM::get_inner), property-name table (parser)",
+        "assumptions": ["TCP 'flags' must equal ONE of the RFC 9293-consistent readings (8, 9 or 12 bits) for all inputs (any-of group)"],
+    },
+    "C17": {
+        "functions": [PROTO + "*.rs: every numeric set_* with getters, serialiser and parser", "src/builtins/pcap.rs: PcapPacket setters (H1), Pcap global-header setters (H4)"],
+        "bounds": "one assignment from an arbitrary header state; assigned value any i64; IPv4 harnesses pin the version/IHL byte to 0x45 and 0x46 (options present)",
+        "outside": "src/dst address setters (text parsing), sequences of assignments (inductive argument), SetProp opcode glue (VM)",
+        "assumptions": [],
+    },
+    "C19": {
+        "functions": ["PcapGlobalHeader::from_bytes / new / From<&PcapGlobalHeader>", "PcapPacketHeader::from_bytes / From<&PcapPacketHeader>"],
+        "bounds": "every input length 0..28 (global) and 0..20 (record), all byte contents",
+        "outside": "record loop, read_all(f, n), caplen/snaplen test, truncation handling (real file descriptors inside FileHandle match arms)",
+        "assumptions": [],
+    },
+    "C21": {
+        "functions": ["read_from_file::<SymReader> and ::<BufReader<SymReader>> (src/builtins/functions.rs, hook H2)"],
+        "bounds": "content length <= B (B = 1,2,3 required; 4 and the BufReader variant best effort), request n any usize, symbolic chunk size at every read() call",
+        "outside": "byte VALUES in the returned array (not reachable, DESIGN 10); contents larger than the bound (4096/8192 buffer boundaries); read_line, read_to_string, open modes, write/flush",
+        "assumptions": ["the reader honours the documented contract of std::io::Read::read: 0 only at end of input or for an empty buffer, else 1..=min(buf.len(), remaining)"],
+    },
+}
+
+# ------------------------------------------------------------------------------------------------
+# end-to-end rendering of packet-layer counterexamples
+
+ETH_TYPE = {"Vlan": 0x8100, "Ipv4Packet": 0x0800, "Ipv6Packet": 0x86DD}
+ACCESS = {"Ethernet": "p.eth", "Vlan": "p.eth.vlan", "Ipv4Packet": "p.eth.ipv4", "Ipv6Packet": "p.eth.ipv6",
+          "Udp": "p.eth.ipv4.udp", "Tcp": "p.eth.ipv4.tcp"}
+PROPS = {"Ethernet": ["type"], "Vlan": ["priority", "dei", "id", "type"],
+         "Ipv4Packet": ["version", "ihl", "dscp", "ecn", "totlen", "id", "flags", "fragoff", "ttl", "proto", "checksum"],
+         "Ipv6Packet": ["version", "trafficclass", "flowlabel", "len", "nextheader", "hoplimit"],
+         "Udp": ["srcport", "dstport", "len", "checksum"],
+         "Tcp": ["srcport", "dstport", "seq", "ack", "dataoff", "flags", "winsize", "checksum", "urgent"]}
+
+
+def _frame(ty, layer_bytes):
+    eth = bytes.fromhex("020000000001020000000002")
+    if ty == "Ethernet":
+        return layer_bytes
+    if ty in ETH_TYPE:
+        return eth + struct.pack(">H", ETH_TYPE[ty]) + layer_bytes
+    proto = 17 if ty == "Udp" else 6
+    ip = bytes([0x45, 0]) + struct.pack(">H", 20 + len(layer_bytes)) + bytes([0, 1, 0, 0, 64, proto, 0, 0, 10, 0, 0, 1, 10, 0, 0, 2])
+    return eth + struct.pack(">H", 0x0800) + ip + layer_bytes
 
 
 def e2e(prop, h, test, verdicts):
-    """End-to-end rendering of a counterexample through the real binary, where one exists."""
-    return None
+    """Render a dec/ser/payoff counterexample as a one-record pcap + p2sh script, run the real binary
+    (the harness package's own build of /repo's sources) and record what it prints / writes."""
+    try:
+        m = re.match(r"(dec|ser|payoff)::<(\w+)(?:<\d+>)?, (\d+)>\((\d+), (-?\d+)\)", h.call)
+        if not m:
+            return None
+        fn, ty, L, off, pin = m.group(1), m.group(2), int(m.group(3)), int(m.group(4)), int(m.group(5))
+        if ty.startswith("TcpW"):
+            ty = "Tcp"
+        if ty not in ACCESS:
+            return None
+        raw = bytearray(bytes.fromhex(test["bytes"])[:L].ljust(L, b"\0"))
+        if pin >= 0 and off < L:
+            raw[off] = pin
+        layer = bytes(raw[off:])
+        frame = _frame(ty, layer)
+        d = os.path.join(VERIF, ".build", "e2e", h.name)
+        os.makedirs(d, exist_ok=True)
+        pcap = struct.pack("<IHHiIII", 0xA1B2C3D4, 2, 4, 0, 0, 65535, 1) + struct.pack("<IIII", 1, 2, len(frame), len(frame)) + frame
+        open(os.path.join(d, "in.pcap"), "wb").write(pcap)
+        acc = ACCESS[ty]
+        lines = ['let f = pcap_open("in.pcap", "r");', 'let o = pcap_open("out.pcap", "w");', "let p = pcap_read_next(f);"]
+        for pr in PROPS[ty]:
+            lines.append(f'println("{pr}={{}}", {acc}.{pr});')
+        lines.append(f'println("payload_len={{}}", len({acc}.payload));')
+        lines.append("pcap_write(o, p);")
+        open(os.path.join(d, "script.p2"), "w").write("\n".join(lines) + "\n")
+        env = dict(os.environ, CARGO_NET_OFFLINE="true", RUSTFLAGS="--cfg p2sh_verif")
+        tdir = os.path.join(VERIF, ".build", "native")
+        b = subprocess.run(["cargo", "build", "--offline", "--target-dir", tdir], cwd=os.path.join(VERIF, "kani"), env=env,
+                           stdout=subprocess.PIPE, stderr=subprocess.STDOUT, text=True, timeout=1200)
+        binp = os.path.join(tdir, "debug", "p2sh")
+        if b.returncode != 0 or not os.path.exists(binp):
+            return {"end_to_end": {"error": "could not build the p2sh binary"}}
+        for fnm in ("out.pcap",):
+            try:
+                os.remove(os.path.join(d, fnm))
+            except OSError:
+                pass
+        r = subprocess.run([binp, "script.p2"], cwd=d, stdout=subprocess.PIPE, stderr=subprocess.STDOUT, text=True, timeout=60)
+        outp = os.path.join(d, "out.pcap")
+        same = os.path.exists(outp) and open(outp, "rb").read() == pcap
+        return {"end_to_end": {"note": "informational rendering through the real binary (layer placed behind a synthetic Ethernet/IPv4 header where needed); "
+                                       "the deciding replay is the native harness replay above",
+                               "frame_hex": frame.hex(), "script": lines, "exit_status": r.returncode,
+                               "panicked": "panicked" in r.stdout, "stdout_tail": r.stdout[-1500:],
+                               "pcap_write_reproduces_input": same, "dir": d}}
+    except Exception as e:      # never let the rendering break a report
+        return {"end_to_end": {"error": str(e)}}
